@@ -547,6 +547,13 @@ def expand(template_path, repo_src_dir, canary=False):
         nl = len(find_loops(body))
         loops = {k: v for k, v in loops.items() if not (k in optional_loops and k > nl)}
         edges = {k: v for k, v in edges.items() if not (k[1] in optional_loops and k[1] > nl)}
+        loop_canaries = []
+        if canary:
+            # every loop body must be reachable under its invariant (a contradictory invariant verifies any body)
+            for k_ in range(1, nl + 1):
+                pseudo = '%s#loop%d' % (fname, k_)
+                edges[('LOOPEND', k_)] = edges.get(('LOOPEND', k_), '') + '\n        proof { if vstd::pervasive::arbitrary::<Seq<bool>>()[%d] { assert(false); } } /*canary-loop: %s */\n' % (k_, pseudo)
+                loop_canaries.append(pseudo)
         body = apply_insertions(body, loops, [(a, t) for a, t in hints], fname, gen.notes, edges)
         sig = '    %s%s%s%s' % (vis, unsafe, head, params)
         if ret:
@@ -563,7 +570,7 @@ def expand(template_path, repo_src_dir, canary=False):
         if sections['PROLOGUE'].strip():
             gen.emit(sections['PROLOGUE'].rstrip(), {'fn': fname, 'kind': 'body', 'tags': tags})
         if canary and kv.get('canary', 'exit') == 'entry':
-            gen.emit('        proof { assert(false); } /*canary: entry must be reachable*/', {'fn': fname, 'kind': 'body', 'tags': tags})
+            gen.emit('        proof { if vstd::pervasive::arbitrary::<Seq<bool>>()[0] { assert(false); } } /*canary: entry must be reachable*/', {'fn': fname, 'kind': 'body', 'tags': tags})
             gen.emit(body.strip('\n'), {'fn': fname, 'kind': 'body', 'tags': tags})
         elif canary:
             gen.emit('        let r__ = {', {'fn': fname, 'kind': 'body', 'tags': tags})
@@ -577,6 +584,9 @@ def expand(template_path, repo_src_dir, canary=False):
         gen.functions.append({'fn': fname, 'file': f.file, 'impl': f.impl_header, 'name': f.name,
                               'source_line': f.line, 'sha256': f.sha256, 'tags': tags,
                               'gen_lines': [start_line, len(gen.lines)]})
+        for pseudo in loop_canaries:
+            gen.functions.append({'fn': pseudo, 'file': f.file, 'impl': f.impl_header, 'name': f.name, 'source_line': f.line,
+                                  'sha256': '', 'tags': tags, 'gen_lines': [start_line, len(gen.lines)]})
     return gen
 
 
